@@ -2,7 +2,8 @@
    AlignedPair.source; hence whole runs under any two schedules print the same data lines. *)
 From Coq Require Import ZArith QArith List Bool Lia.
 Import ListNotations.
-Require Import Py Pairing Core Multi Coordinator Pool SrcErase PoolProofs1.
+Require Import Py Pairing Core Multi Coordinator Pool SrcErase PoolProofs1 RowEq FreshProofs.
+Require ModesProofs4.
 Open Scope Z_scope.
 
 Lemma Ok_inj {A} (a b : A) : Ok a = Ok b -> a = b. Proof. intros H. injection H as H. exact H. Qed.
@@ -71,20 +72,41 @@ Proof. unfold results_resolve.
 Lemma map_set_rest_E rows : map set_rest (map erase_row rows) = map erase_row (map set_rest rows).
 Proof. rewrite !map_map. reflexivity. Qed.
 
-Lemma multi_post_E m maxdiff rows1 rows2 :
+(* repair F12 (`row not in filteredFirstPassRows`): on first-pass rows (AlignedRest = False) and second-pass rows (set_rest: True) the
+   membership test only depends on (query id, AlignedRest) (FreshProofs.fresh_rows_map), which erasure keeps *)
+Lemma multi_post_E m maxdiff rows1 rows2 : Forall (fun w => rest w = false) rows1 ->
   multi_post m maxdiff (map erase_row rows1) (map erase_row rows2) = map_res erase_outputs (multi_post m maxdiff rows1 rows2).
-Proof. unfold multi_post. cbv zeta. rewrite map_set_rest_E.
+Proof. intros HR.
+  assert (HF : pass_flags rows1 (map set_rest rows2)).
+  { split; [exact HR|]. apply Forall_forall. intros w Hw. apply in_map_iff in Hw. destruct Hw as (y & <- & _). reflexivity. }
+  pose proof (fresh_rows_map erase_row (fun _ => eq_refl) (fun _ => eq_refl) filter_subsequent_E m rows1 (map set_rest rows2) HF) as X.
+  unfold fresh_rows, first_rows in X. rewrite <- map_set_rest_E in X.
+  unfold multi_post. cbv zeta. rewrite X. clear X. rewrite map_set_rest_E.
   assert (H1 : filter_subsequent (match m with Best => map erase_row rows1 ++ map erase_row (map set_rest rows2) | _ => map erase_row rows1 end)
                = map erase_row (filter_subsequent (match m with Best => rows1 ++ map set_rest rows2 | _ => rows1 end))).
   { destruct m; rewrite <- ?map_app; apply filter_subsequent_E. }
   rewrite H1, filter_subsequent_E, <- map_app, results_resolve_E. clear H1.
   set (f1 := filter_subsequent (match m with Best => rows1 ++ map set_rest rows2 | _ => rows1 end)).
   set (f2 := filter_subsequent (map set_rest rows2)).
-  destruct m; try reflexivity; destruct (results_resolve (f1 ++ f2) maxdiff) as [js|]; cbn [bind map_res]; try reflexivity.
+  destruct m; try reflexivity; destruct (results_resolve (f1 ++ _) maxdiff) as [js|]; cbn [bind map_res]; try reflexivity.
   unfold erase_2. cbn [fst snd]. unfold erase_outputs. cbn [o_main o_1 o_2 option_map]. f_equal. f_equal.
   rewrite map_map. cbn [erase_row qid].
   rewrite (filter_map_key erase_row _ (fun w => negb (mem_z (qid w) (map qid (fst js))))) by reflexivity.
   rewrite <- map_app. apply sort_by_map_key. reflexivity. Qed.
+
+(* the rows a pool pass returns are first-pass candidates: AlignedRest = False *)
+Lemma pool_results_rest P seeds refs qs : forall its rs, pool_results P seeds refs qs its = Ok rs ->
+  Forall (fun w => rest w = false) (keep_rows rs).
+Proof. induction qs as [|q t IH]; intros its rs H; cbn [pool_results] in H.
+  - injection H as <-. constructor.
+  - destruct (align_query P seeds refs q (its 0%nat)) as [r|] eqn:Ea; [|discriminate]. cbn [bind] in H.
+    destruct (pool_results P seeds refs t (fun k => its (S k))) as [rs'|] eqn:Et; [|discriminate]. cbn [bind] in H. injection H as <-.
+    unfold keep_rows. cbn [flat_map]. apply Forall_app. split; [|apply (IH _ _ Et)].
+    destruct (fst r) as [w|] eqn:Ew; [|constructor]. destruct (row_has_pairs w); constructor; [|constructor].
+    apply (ModesProofs4.align_query_rest _ _ _ _ _ _ _ Ea Ew). Qed.
+Lemma pool_execute_rest P seeds refs qs its a : pool_execute P seeds refs qs its = Ok a -> Forall (fun w => rest w = false) a.
+Proof. unfold pool_execute. destruct (pool_results P seeds refs qs its) as [rs|] eqn:E; [|discriminate]. cbn [bind]. intros H. injection H as <-.
+  apply (pool_results_rest _ _ _ _ _ _ E). Qed.
 
 (* ---------- whole runs ---------- *)
 Lemma pool_multi_execute_NI P seeds m maxdiff refs qs its1 its2 its1' its2' :
@@ -92,13 +114,14 @@ Lemma pool_multi_execute_NI P seeds m maxdiff refs qs its1 its2 its1' its2' :
   map_res erase_outputs (pool_multi_execute P seeds m maxdiff refs qs its1' its2').
 Proof. unfold pool_multi_execute.
   pose proof (pool_execute_NI P seeds refs qs its1 its1') as H.
-  destruct (pool_execute P seeds refs qs its1) as [a|], (pool_execute P seeds refs qs its1') as [a'|]; cbn in H; try discriminate; [|reflexivity].
+  destruct (pool_execute P seeds refs qs its1) as [a|] eqn:Ea, (pool_execute P seeds refs qs its1') as [a'|] eqn:Ea'; cbn in H; try discriminate; [|reflexivity].
   injection H as H. cbn [bind].
   assert (HF : all_fragments a qs = all_fragments a' qs) by (rewrite <- (all_fragments_E a), <- (all_fragments_E a'), H; reflexivity).
   rewrite HF. destruct (all_fragments a' qs) as [frags|]; cbn [bind]; [|reflexivity].
   pose proof (pool_execute_NI P seeds refs frags its2 its2') as H2.
   destruct (pool_execute P seeds refs frags its2) as [b|], (pool_execute P seeds refs frags its2') as [b'|]; cbn in H2; try discriminate; [|reflexivity].
-  injection H2 as H2. cbn [bind]. rewrite <- !multi_post_E, H, H2. reflexivity. Qed.
+  injection H2 as H2. cbn [bind].
+  rewrite <- !multi_post_E by (eapply pool_execute_rest; eassumption). rewrite H, H2. reflexivity. Qed.
 
 Definition final_filter (o : outputs) : outputs := mkOut (filter_subsequent (o_main o)) (o_1 o) (o_2 o).
 Lemma final_filter_E o : final_filter (erase_outputs o) = erase_outputs (final_filter o).
